@@ -4,6 +4,7 @@ import (
 	"context"
 	"fmt"
 	"math"
+	"math/rand"
 	"sort"
 	"strings"
 	"sync"
@@ -17,7 +18,9 @@ import (
 	"google.golang.org/protobuf/reflect/protoregistry"
 	"google.golang.org/protobuf/types/known/fieldmaskpb"
 
+	"github.com/smart-core-os/sc-api/go/traits"
 	"github.com/smart-core-os/sc-golang/pkg/router"
+	"github.com/smart-core-os/sc-golang/pkg/trait/electricpb"
 )
 
 // C14 — trait servers give read-your-writes through the full stack (DESIGN.md §5 C14).
@@ -261,6 +264,32 @@ func significantlyDifferent(a, b protoreflect.Message, depth int) bool {
 	return false
 }
 
+// provision gives a freshly built server what it needs before Updates can mean anything: the electric model only
+// switches to modes it knows, so an electric server is built with three (and a seeded id source), and Updates name
+// one of them.
+func provision(server any) (any, []string) {
+	if _, ok := server.(*electricpb.ModelServer); ok {
+		ids := []string{"m1", "m2", "m3"}
+		var modes []*traits.ElectricMode
+		for i, id := range ids {
+			modes = append(modes, &traits.ElectricMode{Id: id, Title: fmt.Sprint("mode", i), Voltage: float32(200 + 10*i), Normal: i == 0})
+		}
+		m := electricpb.NewModel(electricpb.WithInitialMode(modes...), electricpb.WithRNG(rand.New(rand.NewSource(7))))
+		return electricpb.NewModelServer(m), ids
+	}
+	return server, nil
+}
+
+// knownID puts one of the provisioned ids into an Update's message (when there are any and the message has an id).
+func knownID(val proto.Message, ids []string, p *prng) {
+	if len(ids) == 0 || p.n(4) == 0 {
+		return
+	}
+	if fd := val.ProtoReflect().Descriptor().Fields().ByName("id"); fd != nil && fd.Kind() == protoreflect.StringKind && !fd.IsList() {
+		val.ProtoReflect().Set(fd, protoreflect.ValueOfString(ids[p.n(len(ids))]))
+	}
+}
+
 type stackStream struct {
 	filtered    bool // the Pull request carried an option that lets the server leave values out
 	stalled     bool // the reader stops reading after the first message (a legitimate, if unhelpful, client)
@@ -300,6 +329,7 @@ func stackRun(w *World, raceOnly bool) {
 	// use, and the first uses - an Update and a Pull from two clients - overlap
 	lazy := !raceOnly && t.Flag(1, 5)
 	var routerSrv any
+	var knownIDs []string
 	if lazy {
 		nfac := 0
 		routerSrv, _ = tr.entry.NewRouter(router.WithFactory(func(name string) (any, error) {
@@ -308,11 +338,15 @@ func stackRun(w *World, raceOnly bool) {
 			// the handler goroutine is a task while it is in here (parked once), so that two first uses can both be inside
 			// the factory before either registers its device
 			w.Adopt(fmt.Sprintf("factory%d", nfac), true).Done()
-			inner, _ := tr.entry.Wrap(tr.server())
+			fresh, ids := provision(tr.server())
+			knownIDs = ids
+			inner, _ := tr.entry.Wrap(fresh)
 			return inner, nil
 		}))
 	} else {
-		inner, _ := tr.entry.Wrap(tr.server())
+		fresh, ids := provision(tr.server())
+		knownIDs = ids
+		inner, _ := tr.entry.Wrap(fresh)
 		var r router.Router
 		routerSrv, r = tr.entry.NewRouter()
 		r.Add(dev, inner)
@@ -410,6 +444,7 @@ func stackRun(w *World, raceOnly bool) {
 			setName(req, dev)
 			val := newMsg(tr.resource)
 			fillMessage(val.ProtoReflect(), p, 2)
+			knownID(val, knownIDs, p)
 			req.ProtoReflect().Set(tr.updField, protoreflect.ValueOfMessage(val.ProtoReflect()))
 			_ = conn.Invoke(context.Background(), full(tr.update), req, newMsg(tr.update.Output()))
 		})
@@ -456,6 +491,7 @@ func stackRun(w *World, raceOnly bool) {
 			setName(req, dev)
 			val := newMsg(tr.resource)
 			fillMessage(val.ProtoReflect(), p, 2)
+			knownID(val, knownIDs, p)
 			req.ProtoReflect().Set(tr.updField, protoreflect.ValueOfMessage(val.ProtoReflect()))
 			w.Go(fmt.Sprintf("race-update%d", u), false, func(task *Task) {
 				r := newMsg(tr.update.Output())
@@ -638,6 +674,7 @@ func stackRun(w *World, raceOnly bool) {
 				setName(req, dev)
 				val := newMsg(tr.resource)
 				fillMessage(val.ProtoReflect(), p, 2)
+			knownID(val, knownIDs, p)
 				req.ProtoReflect().Set(tr.updField, protoreflect.ValueOfMessage(val.ProtoReflect()))
 				maskKind := t.Choose(4)
 				if f := req.ProtoReflect().Descriptor().Fields().ByName("update_mask"); f != nil && maskKind > 0 {
